@@ -5,7 +5,8 @@ CFG = {
     "lean_files": ['GeoModel/Gen/Kernel.lean', 'GeoProofs/Lemmas/GenKernel.lean', "GeoModel/Intersects.lean", "GeoModel/Contains.lean", "GeoModel/Locate.lean", "GeoModel/Segment.lean",
                    "GeoModel/RelateSpec.lean", "GeoModel/Valid.lean", "GeoModel/Gen/Masks.lean", "GeoModel/Gen/Enums.lean",
                    "GeoModel/Ops/C02.lean", "GeoProofs/Lemmas/SegmentSpec.lean", "GeoProofs/Lemmas/RingSpec.lean",
-                   "GeoProofs/Lemmas/LocateLemmas.lean"],
+                   "GeoProofs/Lemmas/LocateLemmas.lean", "GeoProofs/Lemmas/C02QContains.lean", "GeoProofs/Lemmas/C02QWinding.lean",
+                   "GeoProofs/Lemmas/C02QHoles.lean", "GeoProofs/Lemmas/C02QPerturb.lean"],
     "rule": "2/3 of the cases: ordered pairs (A, B) over all 10 types (both through the Geometry enum) from one shared grid, B drawn independently or "
             "from A's own vertices / edge midpoints / edges (so containment is frequent): intersects(A,B), intersects(B,A), contains(A,B), is_within(A,B); "
             "1/3: coordinate_position(G, p) with p a vertex, an edge midpoint or a half-grid point. Three-way comparison per case: implementation, "
@@ -37,6 +38,16 @@ MANIFEST = {
             "Point.is_within(A) equals its own mask T*F**F*** on the specification whenever A.contains(Point) does. Dispatch: has_disjoint_bboxes is sound for the segment "
             "kernel (LineString x LineString, LineString x Line), MultiPoint / LineString / MultiPolygon / GeometryCollection clauses are (bbox test and) any "
             "over members, intersects is symmetric on every primitive pair except Triangle x Triangle and Polygon x Polygon, and for MultiPoint x primitive. "
+            "From validity (C02Q): the specification's winding number is constant along a segment that meets no edge of a closed ring (windingE_const: per edge "
+            "the increments at the two end points differ by a potential difference, which telescopes); hence the location relative to the shell is constant on "
+            "every elementary sub-segment of a hole edge, and BE = F in polyValid gives hypothesis H1 (hole_ring_in_shell: no point of a hole ring is Outside the "
+            "shell ring); coordinate_position = locate and contains(Point) = mask for every OGC-valid polygon under H2 alone "
+            "(coordPos_polygon_eq_locate_valid_partial, containsM_polygon_point_valid_partial) and with no hypothesis for at most one hole "
+            "(coordPos_polygon_eq_locate_one_hole); off a closed ring the winding number of a point perturbed by the symbolic infinitesimal is that of the point "
+            "(windingE_perturb, first half of what H2 needs). LineString::contains(Point) with >= 2 coordinates (index argument over enumerate(); witness for the "
+            "one-coordinate case) and the fixed MultiLineString::contains(Point) (all member lists) equal the mask on the specification; Rect::contains(Rect) "
+            "<=> every point of the inner closed rect is in the outer one (witness: not the DE-9IM mask for a zero-width Rect, K7); Line::contains(Line) <=> both "
+            "end points <=> every point of the inner segment on the outer one (inner line a single point: located in the interior of the outer line). "
             "Each generated case is compared three ways (implementation = model, implementation = specification).",
     "note": "Trusted: Lean kernel + audited axioms; translator; harness (sampling); spec adequacy. Repaired in /repo by this work: Triangle coordinate_position "
             "(29720670), MultiPolygon shared vertex (5f41a6da), MultiPolygon::contains(MultiPoint) (d4024e6e), MultiLineString::contains(Point) (81f1ade9). "
